@@ -10,11 +10,26 @@ import multiprocessing as mp
 import tlc
 
 
+def _plain(x, depth=0):
+    """a picklable, JSON-like copy of a job result (whatever object an engine put into a response becomes its repr)"""
+    if isinstance(x, (str, int, float, bool)) or x is None:
+        return x
+    if depth > 40:
+        return repr(x)[:200]
+    if isinstance(x, dict):
+        return {(k if isinstance(k, (str, int, float, bool)) or k is None else repr(k)): _plain(v, depth + 1) for k, v in x.items()}
+    if isinstance(x, tuple):
+        return tuple(_plain(v, depth + 1) for v in x)
+    if isinstance(x, (list, set, frozenset)):
+        return [_plain(v, depth + 1) for v in x]
+    return repr(x)[:400]
+
+
 def _job(args):
     modname, fn, job = args
     try:
         mod = importlib.import_module(modname)
-        return getattr(mod, fn)(job)
+        return _plain(getattr(mod, fn)(job))
     except tlc.TLCError as e:
         return {"job": job, "machinery_error": str(e)}
     except BaseException:
@@ -26,9 +41,12 @@ def run_jobs(modname, fn, jobs, max_workers=None):
     ctx = mp.get_context("spawn")
     out = []
     with ProcessPoolExecutor(max_workers=max_workers, mp_context=ctx) as ex:
-        futs = [ex.submit(_job, (modname, fn, j)) for j in jobs]
+        futs = {ex.submit(_job, (modname, fn, j)): j for j in jobs}
         for f in as_completed(futs):
-            out.append(f.result())
+            try:
+                out.append(f.result())
+            except BaseException:
+                out.append({"job": futs[f], "machinery_error": traceback.format_exc()})
     return out
 
 
